@@ -29,6 +29,19 @@ CONVERTERS = {
 MUTUAL = "_validate_input_lengths_and_indexes"
 
 
+class _DropView:
+    """view of the DROP:<name> markers kept inside a path's fact set (so that they live and die with the path)"""
+
+    def __init__(self, facts):
+        self.facts = facts
+
+    def __contains__(self, name):
+        return ("DROP:" + name) in self.facts
+
+    def add(self, name):
+        self.facts.add("DROP:" + name)
+
+
 class _A1:
     def __init__(self, repo: Repo):
         self.repo = repo
@@ -37,6 +50,9 @@ class _A1:
         self.memo: Dict[Tuple[str, str], Tuple[List[Tuple[ast.AST, str, str]], Set[str]]] = {}
         self.in_progress: Set[Tuple[str, str]] = set()
         self._dropped: Dict[int, Set[str]] = {}
+        self._single_defs: Dict[str, Dict[str, ast.AST]] = {}
+        self._norm_cache: Dict[int, str] = {}
+        self._drop_relevant: Dict[int, bool] = {}
 
     # ---- helpers
     def _if_of_test(self, f: Func) -> Dict[int, ast.If]:
@@ -108,11 +124,18 @@ class _A1:
         ifn = if_of.get(id(t))
         # a flag with a single definition stands for the test it was computed from (mask_is_boolean = ... is_bool_dtype(mask) ...)
         if isinstance(t, ast.Name) and t.id not in f.named_params:
-            defs = [n for n in walk_no_nested(f.node) if isinstance(n, ast.Assign) and len(n.targets) == 1
-                    and isinstance(n.targets[0], ast.Name) and n.targets[0].id == t.id]
-            if len(defs) == 1:
-                t = defs[0].value
-        txt = norm(t)
+            sd = self._single_defs.get(f.qualname)
+            if sd is None:
+                cnt: Dict[str, List[ast.AST]] = {}
+                for n in walk_no_nested(f.node):
+                    if isinstance(n, ast.Assign) and len(n.targets) == 1 and isinstance(n.targets[0], ast.Name):
+                        cnt.setdefault(n.targets[0].id, []).append(n.value)
+                sd = self._single_defs[f.qualname] = {k: v[0] for k, v in cnt.items() if len(v) == 1}
+            if t.id in sd:
+                t = sd[t.id]
+        txt = self._norm_cache.get(id(t))
+        if txt is None:
+            txt = self._norm_cache[id(t)] = norm(t)
         # a mask that is not boolean (slice / positions) carries no length or index requirement
         if q in MASK_PARAMS and "is_bool_dtype(" in txt and pol is False and self._mentions(t, aliases):
             facts.update({"LEN", "IDX"})
@@ -269,13 +292,13 @@ class _A1:
 
     def _note_index_drops(self, st, aliases, facts):
         """names of list aliases whose elements were (possibly) replaced by index-free arrays on this path"""
-        class _D:
-            """view of the DROP:<name> markers kept inside the path's fact set (so that they live and die with the path)"""
-            def __contains__(self_, name):
-                return ("DROP:" + name) in facts
-            def add(self_, name):
-                facts.add("DROP:" + name)
-        dropped = _D()
+        rel = self._drop_relevant.get(id(st))
+        if rel is None:
+            rel = self._drop_relevant[id(st)] = any(isinstance(n, ast.Assign) for n in ast.walk(st))
+        if not rel:
+            return
+
+        dropped = _DropView(facts)
         for n in ast.walk(st):
             if isinstance(n, ast.Assign):
                 tg = []
